@@ -7,7 +7,7 @@ from scen import payload
 FILES = ['theories/Base.v', 'theories/gen/Codec.v', 'theories/gen/Tp21Gen.v', 'theories/gen/CaGen.v', 'theories/gen/Tp22Gen.v', 'theories/CodecGlue.v',
          'theories/Model21.v', 'theories/Model22.v', 'theories/Replay21.v', 'theories/Replay22.v', 'proofs/CodecProofs.v', 'proofs/Flat.v',
          'proofs/Tp21Seg.v', 'proofs/Tp21Resp.v', 'proofs/Tp21Orig.v', 'proofs/TimeoutProofs.v', 'proofs/MpgProofs.v', 'proofs/PoolProofs.v', 'proofs/ConserveProofs.v',
-         'theories/SkelDefs.v', 'theories/FlowDefs.v', 'theories/gen/SkelGen.v', 'proofs/FlowProofs.v', 'proofs/FlowSend22.v', 'proofs/Net21.v', 'proofs/Net21Proofs.v', 'proofs/Net21Seq.v', 'proofs/Net22.v', 'proofs/Net22Proofs.v', 'proofs/Net22Seq.v']
+         'theories/SkelDefs.v', 'theories/FlowDefs.v', 'theories/gen/SkelGen.v', 'proofs/FlowProofs.v', 'proofs/FlowSend22.v', 'proofs/Net21.v', 'proofs/Net21Proofs.v', 'proofs/Net21Seq.v', 'proofs/Net22.v', 'proofs/Net22Proofs.v', 'proofs/Net22Seq.v', 'proofs/Net21Bam.v', 'proofs/Net21BamSeq.v', 'theories/gen/DiagGen.v', 'theories/Dm1Model.v', 'proofs/DiagProofs.v']
 
 
 def gen(rng, k, dll=None):
